@@ -47,6 +47,13 @@ CLAIMED.update({
    note="arithmetic over runtime values, zero-length copies and cache flush effectiveness not decided; 3 unchecked Sends of the CP middleware recorded as known findings; memRangeOverlap containment defect repaired by a fix: commit"),
 })
 
+CLAIMED.update({
+ "C06": dict(
+   text="Lane non-interference argued per vector handler of both ALUs on SSA, for all EXEC masks and all paths: lane loops are 0..63; every lane write, storage access and LDS access uses the loop's lane and is dominated by the CFG edge on which that lane's EXEC bit (from state.EXEC()) is set, with polarity checked; every operand read in a lane loop reads the loop's lane; VCC/EXEC/SCC are used through lane i's own bit only (lane-mask accumulators whose updates touch only the updating lane's bit are recognised); no loop-carried value reaches a lane write; scalar destinations are written outside the loops; scalar handlers do not read EXEC. Relative to the InstEmuState contract (C07).",
+   ref="4/C06", technique="SSA dataflow: natural lane loops, dominance of CFG edges (guard with polarity), backward data slices for loop-carried values, lane-mask accumulator recognition, documented-exception table",
+   note="what value a lane computes is not decided; helpers that receive the lane as a parameter are judged at call sites; v_readfirstlane is the only exception (both ALUs); one defect (v_div_scale_f64 SDst) found and repaired by a fix: commit"),
+})
+
 PENDING = {}
 
 NOT_APPLICABLE = {
